@@ -294,11 +294,8 @@ Ev(C, e, st) ==
          LET r == Ev(C, e.a, st) IN
          IF r.k = "ok" THEN [r EXCEPT !.stk = Append(@, SubSeq(inp, p, r.pos - 1))] ELSE r
     [] t = "pushlit" -> Ok([st EXCEPT !.stk = Append(@, e.s)])
-    [] t = "tag"   ->
-         LET r == Ev(C, e.a, st) IN
-         IF r.k = "ok" /\ ~C.la /\ r.q # <<>>
-         THEN [r EXCEPT !.q = [@ EXCEPT ![Len(@)] = [@ EXCEPT !.tag = e.tag]]]
-         ELSE r
+    [] t = "tag"   -> Ev(C, e.a, st)      \* node tags (grammar-extras) label pairs; they are outside what
+                                          \* C01 / C05 state, so the semantics is transparent to them
     [] t = "skip"  -> Ok([st EXCEPT !.pos = SkipUntil(inp, p, e.ss)])
     [] t = "restore" ->
          LET r == Ev(C, e.a, st) IN
